@@ -182,8 +182,8 @@ Definition circle_core (fuel : nat) (rows : list cir_in) : res (list (TT * TT)) 
 Record cir_row := { cw_r : TT; cw_z : TT; cw_d : TT; cw_i : TT }.
 Definition cw_r0 (w : cir_row) : TT := labs N (cw_d w / c2).
 Definition cir_mask1 (w : cir_row) : bool := leqb N (cw_r0 w) c0.
-Definition cir_mask2 (w : cir_row) : bool :=
-  lltb N (labs N (cw_r w - cw_r0 w)) (lit_1em15 * cw_r0 w) && leqb N (cw_z w) c0.
+Definition cir_mask2 (w : cir_row) : bool :=          (* since fix 588c868: abs(z) < 1e-15 * r0 instead of z == 0 *)
+  lltb N (labs N (cw_r w - cw_r0 w)) (lit_1em15 * cw_r0 w) && lltb N (labs N (cw_z w)) (lit_1em15 * cw_r0 w).
 Definition cir_mask3 (w : cir_row) : bool := leqb N (cw_r w) c0.
 Definition cir_mask5 (w : cir_row) : bool := negb ((cir_mask1 w || cir_mask2 w) || cir_mask3 w).
 Definition cir_core_in (w : cir_row) : cir_in :=
